@@ -159,18 +159,59 @@ func (d *kvData) Hash() uint64 {
 
 // MakeCmd encodes append(key, id).
 func MakeCmd(key byte, id uint64) []byte {
-	b := make([]byte, 9)
+	n := 0
+	if m := atomic.LoadInt64(&cmdPad); m > 0 {
+		n = padLen(id, int(m))
+	}
+	b := make([]byte, 9+n)
 	b[0] = key
 	binary.BigEndian.PutUint64(b[1:], id)
+	if n > 0 {
+		fillDerived(b[9:], id, 77, 0)
+	}
 	return b
 }
 
-// ParseCmd decodes a command.
+// cmdPad > 0: commands carry 0..cmdPad bytes derived from the id after the 9 bytes that
+// matter, so that a payload altered anywhere between Propose and Update no longer parses.
+var cmdPad int64
+
+// SetCmdPad sets the maximum padding of commands made from now on (0 = none).
+func SetCmdPad(n int) { atomic.StoreInt64(&cmdPad, int64(n)) }
+
+func padLen(id uint64, max int) int {
+	x := id * 0x9e3779b97f4a7c15
+	x ^= x >> 29
+	switch x % 4 {
+	case 0:
+		return 0
+	case 1:
+		return int((x >> 8) % 16)
+	}
+	return int((x >> 8) % uint64(max+1))
+}
+
+// ParseCmd decodes a command; padded commands must carry exactly the padding MakeCmd gave them.
 func ParseCmd(cmd []byte) (byte, uint64, bool) {
-	if len(cmd) != 9 {
+	if len(cmd) < 9 {
 		return 0, 0, false
 	}
-	return cmd[0], binary.BigEndian.Uint64(cmd[1:]), true
+	id := binary.BigEndian.Uint64(cmd[1:])
+	n := 0
+	if m := atomic.LoadInt64(&cmdPad); m > 0 {
+		n = padLen(id, int(m))
+	}
+	if len(cmd) != 9+n {
+		return 0, 0, false
+	}
+	if len(cmd) > 9 {
+		want := make([]byte, len(cmd)-9)
+		fillDerived(want, id, 77, 0)
+		if string(want) != string(cmd[9:]) {
+			return 0, 0, false
+		}
+	}
+	return cmd[0], id, true
 }
 
 // ApplyRec is one applied entry as seen by a state machine instance.
@@ -224,6 +265,47 @@ type SMOptions struct {
 	RaceCanary   bool // keep the deliberately unsynchronised field (race detector oracle)
 	RecordApply  bool
 	OpenFailStop bool
+	// StrictCmd: every command handed to Update must be one that MakeCmd produced (the clients
+	// of the stage propose nothing else)
+	StrictCmd bool
+	// Ballast: that many bytes derived from the data are appended to every snapshot image and
+	// verified on recovery (images larger than one snapshot block / chunk).
+	Ballast int
+	// ExtDir: when set (a directory of the real file system), plain and concurrent state
+	// machines add 1-2 external files, derived from the data, to every snapshot and verify
+	// them on recovery.
+	ExtDir func(host int) string
+}
+
+// ballastByte: byte i of the ballast / of external file id for data with the given hash.
+func fillDerived(b []byte, hash uint64, id uint64, off int) {
+	word := func(p uint64) uint64 {
+		x := (hash ^ (id * 0x9e3779b97f4a7c15)) + p*0xbf58476d1ce4e5b9
+		x ^= x >> 31
+		x *= 0x94d049bb133111eb
+		x ^= x >> 29
+		return x
+	}
+	i := 0
+	for i < len(b) {
+		pos := off + i
+		x := word(uint64(pos) >> 3)
+		for k := pos & 7; k < 8 && i < len(b); k++ {
+			b[i] = byte(x >> (8 * uint(k)))
+			i++
+		}
+	}
+}
+
+var extSizes = []int{1, 4096, 1<<20 + 3, 2 << 20, 2<<20 + 1, 3<<20 - 1}
+
+func extPlan(hash uint64) (ids []uint64, sizes []int) {
+	n := 1 + int(hash%2)
+	for i := 0; i < n; i++ {
+		ids = append(ids, uint64(i+1)+(hash>>8)%5)
+		sizes = append(sizes, extSizes[int((hash>>(16+4*uint(i)))%uint64(len(extSizes)))])
+	}
+	return
 }
 
 // SMInst is one incarnation of a user state machine (one per replica start).
@@ -540,6 +622,12 @@ func (s *SMInst) update(ents []sm.Entry) []sm.Entry {
 	for i := range ents {
 		key, id, ok := ParseCmd(ents[i].Cmd)
 		if !ok {
+			if s.opt.StrictCmd {
+				for _, p := range []string{"C13", "C01"} {
+					s.sink.Violation(p, "applied-command-is-not-a-proposed-payload", fmt.Sprintf("%s: Update(index %d) was handed %d bytes that no client proposed: %x", s.id(), ents[i].Index, len(ents[i].Cmd), ents[i].Cmd),
+						map[string]interface{}{"sm": s.id(), "index": ents[i].Index})
+				}
+			}
 			ents[i].Result = sm.Result{Value: 0}
 			continue
 		}
@@ -605,16 +693,168 @@ func (s *SMInst) saveTo(d *kvData, w io.Writer, stopc <-chan struct{}) error {
 			return sm.ErrSnapshotStopped
 		}
 	}
-	return d.write(w)
+	if err := d.write(w); err != nil {
+		return err
+	}
+	if s.opt.Ballast > 0 {
+		var b8 [8]byte
+		binary.BigEndian.PutUint64(b8[:], uint64(s.opt.Ballast))
+		if _, err := w.Write(b8[:]); err != nil {
+			return err
+		}
+		h := d.Hash()
+		buf := make([]byte, 64*1024)
+		for off := 0; off < s.opt.Ballast; off += len(buf) {
+			n := len(buf)
+			if off+n > s.opt.Ballast {
+				n = s.opt.Ballast - off
+			}
+			fillDerived(buf[:n], h, 0, off)
+			if _, err := w.Write(buf[:n]); err != nil {
+				return err
+			}
+		}
+	}
+	return nil
 }
 
-func (s *SMInst) recoverFrom(r io.Reader) error {
+// addExtFiles writes the external files of a snapshot of d and registers them.
+func (s *SMInst) addExtFiles(d *kvData, fc sm.ISnapshotFileCollection) error {
+	if s.opt.ExtDir == nil || fc == nil {
+		return nil
+	}
+	dir := s.opt.ExtDir(s.Host)
+	if err := os.MkdirAll(dir, 0o755); err != nil {
+		return err
+	}
+	h := d.Hash()
+	ids, sizes := extPlan(h)
+	seq := atomic.AddInt64(&extSeq, 1)
+	for i, id := range ids {
+		fp := fmt.Sprintf("%s/ext-%d-%d-%d-%d", dir, s.ShardID, s.ReplicaID, seq, id)
+		b := make([]byte, sizes[i])
+		fillDerived(b, h, id, 0)
+		f, err := os.Create(fp)
+		if err != nil {
+			return err
+		}
+		if _, err := f.Write(b); err != nil {
+			_ = f.Close()
+			return err
+		}
+		if err := f.Sync(); err != nil {
+			_ = f.Close()
+			return err
+		}
+		_ = f.Close()
+		var meta [16]byte
+		binary.BigEndian.PutUint64(meta[:8], h)
+		binary.BigEndian.PutUint64(meta[8:], uint64(sizes[i]))
+		fc.AddFile(id, fp, meta[:])
+		s.sink.Count("sm_external_files_added", 1)
+	}
+	return nil
+}
+
+var extSeq int64
+
+func (s *SMInst) altered(what string, wit map[string]interface{}) {
+	wit["sm"] = s.id()
+	for _, p := range []string{"C14", "C15", "C08"} {
+		s.sink.Violation(p, "altered-snapshot-data-handed-to-state-machine", fmt.Sprintf("%s: RecoverFromSnapshot: %s", s.id(), what), wit)
+	}
+}
+
+// checkExtFiles verifies the external files handed to RecoverFromSnapshot against the data.
+func (s *SMInst) checkExtFiles(d *kvData, files []sm.SnapshotFile) {
+	if s.opt.ExtDir == nil {
+		return
+	}
+	h := d.Hash()
+	ids, sizes := extPlan(h)
+	if len(files) != len(ids) {
+		s.altered(fmt.Sprintf("%d external files handed over, the snapshot was saved with %d", len(files), len(ids)), map[string]interface{}{"files": fmt.Sprint(files)})
+		return
+	}
+	for i, id := range ids {
+		var f *sm.SnapshotFile
+		for j := range files {
+			if files[j].FileID == id {
+				f = &files[j]
+			}
+		}
+		if f == nil {
+			s.altered(fmt.Sprintf("external file id %d missing", id), map[string]interface{}{"files": fmt.Sprint(files)})
+			continue
+		}
+		want := make([]byte, sizes[i])
+		fillDerived(want, h, id, 0)
+		got, err := os.ReadFile(f.Filepath)
+		if err != nil {
+			s.altered(fmt.Sprintf("external file id %d not readable: %v", id, err), map[string]interface{}{"path": f.Filepath})
+			continue
+		}
+		var meta [16]byte
+		binary.BigEndian.PutUint64(meta[:8], h)
+		binary.BigEndian.PutUint64(meta[8:], uint64(sizes[i]))
+		if string(got) != string(want) || string(f.Metadata) != string(meta[:]) {
+			diff := -1
+			for k := 0; k < len(got) && k < len(want); k++ {
+				if got[k] != want[k] {
+					diff = k
+					break
+				}
+			}
+			s.altered(fmt.Sprintf("external file id %d differs from what SaveSnapshot wrote (length %d, written %d, first differing byte %d, metadata equal %v)", id, len(got), len(want), diff, string(f.Metadata) == string(meta[:])),
+				map[string]interface{}{"path": f.Filepath})
+		}
+		s.sink.Count("sm_external_files_verified", 1)
+	}
+}
+
+func (s *SMInst) recoverFrom(r io.Reader, files ...sm.SnapshotFile) error {
 	s.enterExcl("RecoverFromSnapshot")
 	defer s.exitExcl("RecoverFromSnapshot")
 	d, err := readKVData(r)
 	if err != nil {
 		return err
 	}
+	if s.opt.Ballast > 0 {
+		var b8 [8]byte
+		if _, err := io.ReadFull(r, b8[:]); err != nil {
+			s.altered(fmt.Sprintf("image ends before the ballast: %v", err), map[string]interface{}{})
+			return err
+		}
+		n := binary.BigEndian.Uint64(b8[:])
+		if n != uint64(s.opt.Ballast) {
+			s.altered(fmt.Sprintf("ballast length %d, written %d", n, s.opt.Ballast), map[string]interface{}{})
+		} else {
+			h := d.Hash()
+			buf := make([]byte, 64*1024)
+			want := make([]byte, 64*1024)
+			for off := 0; off < s.opt.Ballast; off += len(buf) {
+				k := len(buf)
+				if off+k > s.opt.Ballast {
+					k = s.opt.Ballast - off
+				}
+				if _, err := io.ReadFull(r, buf[:k]); err != nil {
+					s.altered(fmt.Sprintf("image ends inside the ballast at offset %d: %v", off, err), map[string]interface{}{})
+					return err
+				}
+				fillDerived(want[:k], h, 0, off)
+				if string(buf[:k]) != string(want[:k]) {
+					s.altered(fmt.Sprintf("ballast differs from what SaveSnapshot wrote in [%d, %d)", off, off+k), map[string]interface{}{})
+					break
+				}
+			}
+			s.sink.Count("sm_ballast_images_verified", 1)
+		}
+		var b1 [1]byte
+		if k, _ := r.Read(b1[:]); k > 0 {
+			s.altered("bytes after the end of the image", map[string]interface{}{})
+		}
+	}
+	s.checkExtFiles(d, files)
 	if s.opt.SlowRecover > 0 {
 		time.Sleep(s.opt.SlowRecover)
 	}
@@ -656,15 +896,21 @@ func (r *regularSM) Update(e sm.Entry) (sm.Result, error) {
 	return out[0].Result, nil
 }
 func (r *regularSM) Lookup(q interface{}) (interface{}, error) { return r.s.lookup(q) }
-func (r *regularSM) SaveSnapshot(w io.Writer, _ sm.ISnapshotFileCollection, stopc <-chan struct{}) error {
+func (r *regularSM) SaveSnapshot(w io.Writer, fc sm.ISnapshotFileCollection, stopc <-chan struct{}) error {
 	r.s.enterShared("SaveSnapshot")
 	defer r.s.exitShared("SaveSnapshot")
 	r.s.dmu.RLock()
 	d := r.s.data.clone()
 	r.s.dmu.RUnlock()
+	if err := r.s.addExtFiles(d, fc); err != nil {
+		return err
+	}
 	return r.s.saveTo(d, w, stopc)
 }
-func (r *regularSM) RecoverFromSnapshot(rd io.Reader, _ []sm.SnapshotFile, _ <-chan struct{}) error {
+func (r *regularSM) RecoverFromSnapshot(rd io.Reader, files []sm.SnapshotFile, _ <-chan struct{}) error {
+	if r.s.opt.ExtDir != nil {
+		return r.s.recoverFrom(rd, files...)
+	}
 	return r.s.recoverFrom(rd)
 }
 func (r *regularSM) Close() error             { return r.s.close() }
@@ -687,12 +933,18 @@ func (c *concurrentSM) PrepareSnapshot() (interface{}, error) {
 	}
 	return d, nil
 }
-func (c *concurrentSM) SaveSnapshot(ctx interface{}, w io.Writer, _ sm.ISnapshotFileCollection, stopc <-chan struct{}) error {
+func (c *concurrentSM) SaveSnapshot(ctx interface{}, w io.Writer, fc sm.ISnapshotFileCollection, stopc <-chan struct{}) error {
 	c.s.enterShared("SaveSnapshot")
 	defer c.s.exitShared("SaveSnapshot")
+	if err := c.s.addExtFiles(ctx.(*kvData), fc); err != nil {
+		return err
+	}
 	return c.s.saveTo(ctx.(*kvData), w, stopc)
 }
-func (c *concurrentSM) RecoverFromSnapshot(r io.Reader, _ []sm.SnapshotFile, _ <-chan struct{}) error {
+func (c *concurrentSM) RecoverFromSnapshot(r io.Reader, files []sm.SnapshotFile, _ <-chan struct{}) error {
+	if c.s.opt.ExtDir != nil {
+		return c.s.recoverFrom(r, files...)
+	}
 	return c.s.recoverFrom(r)
 }
 func (c *concurrentSM) Close() error             { return c.s.close() }
